@@ -34,21 +34,63 @@ NEEDS = {
  'C20-2': ("BitStream.__setitem__: integer-key fast path skips the pos reset", "s[i] = Bits() (empty value removes the bit) with pos at the end: pos > len"),
  'C20-3': ("BitArray.insert: bounds check reordered", "plain BitArray (or Array) route and pos < -len: AssertionError from Bits._insert"),
 }
+NEEDS.update({
+ 'C03-r2-1': ("_replace: 'if bytealigned is None' became 'if not bytealigned'", "options.bytealigned = True, a call passing bytealigned=False, and an occurrence that is not byte aligned"),
+ 'C03-r2-2': ("'if bs is self: return self' short cut copied to __ixor__", "s ^= s (the object itself as operand) with at least one 1 bit"),
+ 'C03-r2-3': ("_overwrite: fast path treats pos == len as an append via _addright", "lsb0 mode, overwrite at exactly pos == len(s), non-empty operand"),
+ 'C04-r2-1': ("_setbool interns two shared, module-level stores", "a.bool = True through the PROPERTY route (never copies) on a mutable object, then an in-place change: every bool-valued bitstring changes"),
+ 'C04-r2-2': ("split yields self when the delimiter is not found over the whole range", "mutable object, delimiter absent, default start/end, then mutation of the single piece returned"),
+ 'C04-r2-3': ("new Bits.__deepcopy__ returning self", "copy.deepcopy of a BitArray/BitStream (or an Array, whose data is then shared), then mutation of either side"),
+ 'C06-r2-1': ("BitStream.__setitem__: early return for integer keys skips the pos reset", "non-zero pos, integer index, bitstring value of length != 1 ('' or '0b000')"),
+ 'C06-r2-2': ("Bits.__add__ returns self.copy() for an empty right operand", "ConstBitStream with pos != 0 plus an empty right operand: s + '' rewinds s and returns s itself"),
+ 'C06-r2-3': ("_readlist caches parsed formats keyed by format and keyword NAMES (values left out)", "readlist/peeklist/unpack called twice with the same format and keyword names but different values"),
+ 'C08-r2-1': ("__eq__ shortcut: same _filename and length -> True", "mutable object from a file (offset 0), a length-preserving in-place change, then == against another bitstring of the same file and length"),
+ 'C08-r2-2': ("_absolute_slice returns self for a whole-range slice of an immutable store", "Bits/ConstBitStream mapping a WHOLE file and a shift of exactly 0: x << 0 raises TypeError (read-only memory)"),
+ 'C08-r2-3': ("BytesIO initialiser: byte window ignores the sub-byte part of the offset", "BytesIO, explicit length, unaligned offset with offset%8 + ((length-1)%8+1) > 8: result comes back short"),
+ 'C09-r2-1': ("_addleft: fast path for an empty receiver uses copy()", "prepend(<str or Bits>) on an EMPTY BitArray/BitStream (append/+= in lsb0), in-place change, same string constructed again while cached"),
+ 'C09-r2-2': ("Dtype(<Dtype instance>, scale=s) rescales the cached object in place", "a Dtype OBJECT as first argument plus a different scale: every later Dtype('uint8') / unpack / Array picks up the foreign scale"),
+ 'C09-r2-3': ("BitStream.__init__ clears the immutable flag before copying (on the cached store)", "BitStream(s) first, then BitArray(s) with the same string while cached and no Bits(s) in between, then mutation, then construction from s"),
+ 'C12-r2-1': ("rotation by more than half the window done 'the other way' through the swapped hooks", "lsb0, rol/ror with a count strictly greater than half the window"),
+ 'C12-r2-2': ("BitArray.insert fast path _addright when pos == len", "lsb0, BitArray (not BitStream), pos exactly len(self)"),
+ 'C12-r2-3': ("_rfind_lsb0: byte-wise shortcut filters on the msb0 position", "lsb0, rfind, bytealigned, len(self) % 8 == 0 and len(pattern) % 8 != 0"),
+ 'C14-r2-1': ("Array.__delitem__: negative-step slice rewritten as a forward slice", "step <= -2 and a range not aligned to |step| (del a[::-2] on an even number of items)"),
+ 'C14-r2-2': ("Array ==/!= compares encodings when dtypes match", "float dtype with +0.0 vs -0.0, or NaN vs the same NaN"),
+ 'C14-r2-3': ("step-1 slice assignment splices a same-dtype Array's data as is", "source Array of the same dtype WITH trailing bits"),
+ 'C15-r2-1': ("integer cache in int2bitstore keyed by (value, length) without signedness", "the same value and length built legally as UNSIGNED first; afterwards every signed route accepts the out-of-range value"),
+ 'C15-r2-2': ("pack: keyword-length lookup moved below the bits branch", "pack('bits:n', value, n=k) with k != len(value)"),
+ 'C15-r2-3': ("oct2bitstore uses int(s, 8)", "oct strings that int() understands but are not octal digits: '+7', '-0', non-ASCII digits"),
+ 'C17-r2-1': ("tofile fast path writes an immutable store's buffer without zeroing the pad bits", "Bits/ConstBitStream, length % 8 != 0, a route that leaves garbage in the pad bits, tofile before any tobytes"),
+ 'C17-r2-2': ("_setfile maps from the allocation unit holding the offset and subtracts BYTES from a BIT offset", "file larger than mmap.ALLOCATIONGRANULARITY and an offset of at least that many bytes"),
+ 'C17-r2-3': ("Array.tofile writes whole items only", "an Array whose data is not a whole number of items (trailing bits / dtype change)"),
+ 'C20-r2-1': ("_readue end-of-data check off by one", "readlist/unpack (not read/peek) of a ue/se code with >= 2 leading zeros cut short by exactly one bit: pos > len"),
+ 'C20-r2-2': ("tofile switches lsb0 off around the chunk loop without try/finally", "lsb0 on, non-empty bitstring, a writer that FAILS: options.lsb0 is left False"),
+ 'C20-r2-3': ("_pp: width clamp moved into the two-format branch only", "pp() with exactly one format of length 0 ('hex:0') and a width no larger than the offset column: AssertionError"),
+})
 PORTED = {'C14-2': '/tmp/mut/C14/_port', 'C17-1': '/tmp/mut/C17/_port'}
-CROSS = {'C08-1': ['C15', 'C17'], 'C08-2': ['C04'], 'C09-1': ['C04'], 'C20-1': ['C04'], 'C20-2': ['C06']}
+CROSS = {'C08-1': ['C15', 'C17'], 'C08-2': ['C04'], 'C09-1': ['C04'], 'C20-1': ['C04'], 'C20-2': ['C06'],
+         'C03-r2-3': ['C12'], 'C08-r2-3': ['C15', 'C17'], 'C17-r2-2': ['C15'], 'C20-r2-1': ['C06']}
 MISSED_BEFORE = {'C03-2': 'E-MUT generated descending ranges only down to -1 and thinned range trigger tags',
                  'C08-1': 'E-ROUTE always left >= 1 slack byte after the window',
                  'C08-2': 'E-ROUTE discarded objects derived from the pair',
                  'C09-1': 'E-CACHE mutated results whose bits rarely came from a key string of the universe',
                  'C12-3': 'E-LSB0 toggled with True/False only',
                  'C20-1': 'E-CHAOS dropped pack() results',
-                 'C20-2': 'E-CHAOS rarely had a stream positioned at its end before an item assignment with an empty value'}
+                 'C20-2': 'E-CHAOS rarely had a stream positioned at its end before an item assignment with an empty value',
+                 'C03-r2-3': 'E-MUT runs in msb0 only (C03 does not quantify over configurations); the lsb0 semantics are C12\'s and E-LSB0 catches it',
+                 'C04-r2-1': 'E-ALIAS assigned only five properties and had no value-keyword constructor routes; the leaked module-level state also needed the history replay',
+                 'C08-r2-1': 'E-ROUTE compared the pair only with in-memory objects, never with another object from the same file',
+                 'C08-r2-3': 'by design: E-ROUTE builds its twin from the observed bits; a wrong window is C15/C17 territory (both catch it)',
+                 'C09-r2-2': 'E-CACHE never passed a Dtype instance to Dtype()',
+                 'C15-r2-2': 'E-REJECT gave keyword lengths to integer tokens only',
+                 'C15-r2-3': 'E-REJECT had a fixed list of nine malformed literals',
+                 'C17-r2-2': 'quick-tier files were at most 1025 bytes',
+                 'C20-r2-1': 'E-CHAOS had random stream content: a codeword cut by exactly one bit was too rare'}
 only = sys.argv[1:]
 for key in sorted(NEEDS):
     if only and key not in only:
         continue
-    prop, n = key.split('-')
-    src = PORTED.get(key, f'/tmp/mut/{prop}/_out')
+    prop, n = key.split('-')[0], key.split('-')[-1]
+    src = PORTED.get(key, f'/tmp/mut2/{prop}/_out' if '-r2-' in key else f'/tmp/mut/{prop}/_out')
     d = os.path.join(V, 'seeded', key)
     os.makedirs(d, exist_ok=True)
     shutil.copy(os.path.join(src, f'patch{n}.diff'), os.path.join(d, 'patch.diff'))
@@ -64,7 +106,7 @@ for key in sorted(NEEDS):
     head = subprocess.run(['git', '-C', '/repo', 'rev-parse', '--short', 'HEAD'], capture_output=True, text=True).stdout.strip()
     meta = {
         'id': key, 'breaks_property': prop, 'change': NEEDS[key][0], 'needs_to_manifest': NEEDS[key][1],
-        'origin': 'fresh sub-agent given only the property text and its own scratch worktree of /repo (no access to /verif)'
+        'origin': ('second-round ' if '-r2-' in key else '') + 'fresh sub-agent given only the property text' + (' plus one-line descriptions of the first-round ideas to avoid,' if '-r2-' in key else '') + ' and its own scratch worktree of /repo (no access to /verif)'
                   + ('; the patch no longer applied after later fix: commits and was re-based by hand (patch_as_seeded.diff is the original)' if key in PORTED else ''),
         'validated_against_repo_head': head,
         'what_was_run': ['git worktree of /repo HEAD under /tmp + git apply patch.diff', 'unedited test suite in the patched tree', 'demo.py on /repo and on the patched tree',
